@@ -99,7 +99,7 @@ func parseSingleConstraint(c string) ([]*constraint, error) {
 	}
 
 	// Handle wildcard constraint (1.2.* or 1.x)
-	if strings.Contains(c, "*") || strings.Contains(c, "x") {
+	if hasWildcardComponent(c) {
 		return parseWildcardConstraint(c)
 	}
 
@@ -133,6 +133,17 @@ func parseSingleConstraint(c string) ([]*constraint, error) {
 		return nil, fmt.Errorf("invalid version in constraint '%s': %v", c, err)
 	}
 	return []*constraint{{operator: "=", version: version}}, nil
+}
+
+// hasWildcardComponent reports whether a whole dot-separated component is * or x
+// (1.2.*, 1.x); a letter x elsewhere (>=dev-fix, <1.0+x) does not make a wildcard
+func hasWildcardComponent(c string) bool {
+	for _, part := range strings.Split(c, ".") {
+		if part == "*" || part == "x" {
+			return true
+		}
+	}
+	return false
 }
 
 // normalizeOperator normalizes operators for consistency
